@@ -52,6 +52,11 @@ pub struct Scenario {
     /// common::os): names without an extension, with several dots, with blanks, not UTF-8
     #[serde(default = "out_default")]
     pub out_rel: String,
+    /// the directory the output goes to does not exist (Err, or Ok with the file exactly right
+    /// from a writer that creates it); with a second caller both outputs go below it, and each
+    /// call must end as it ends when it runs alone
+    #[serde(default)]
+    pub missing_parent: bool,
 }
 fn out_default() -> String {
     OUT_REL.to_string()
@@ -290,6 +295,7 @@ pub fn scenario_shape(tier: &str, base_seed: u64, g: u64) -> Scenario {
             duo: None,
             config: "sweep".into(),
             out_rel: OUT_REL.to_string(),
+            missing_parent: false,
         };
     }
     let writer = if r.chance(1, 2) { "code" } else { "eeprom" };
@@ -320,7 +326,7 @@ pub fn scenario_shape(tier: &str, base_seed: u64, g: u64) -> Scenario {
         }
         _ => {}
     }
-    Scenario {
+    let mut sc = Scenario {
         engine: "hexio".into(),
         writer: writer.into(),
         len,
@@ -366,7 +372,24 @@ pub fn scenario_shape(tier: &str, base_seed: u64, g: u64) -> Scenario {
         } else {
             OUT_REL.to_string()
         },
+        missing_parent: false,
+    };
+    // one scenario in sixteen (one duo in three) writes below a directory that does not exist
+    if sc.config == "duo" && r.chance(1, 3) {
+        sc.missing_parent = true;
+        sc.out_rel = "out/new dir/deep/image.hex".to_string();
+        if let Some(d) = sc.duo.as_mut() {
+            d.path = ["out/new dir/deep/second.hex", "out/new dir/other/second.hex", "out/new dir/second.hex"][r.usize(3)].to_string();
+        }
+        sc.pre_existing = 0;
+        sc.pre_kind = String::new();
+    } else if matches!(sc.config.as_str(), "free" | "open") && r.chance(1, 12) {
+        sc.missing_parent = true;
+        sc.out_rel = "out/new dir/deep/image.hex".to_string();
+        sc.pre_existing = 0;
+        sc.pre_kind = String::new();
     }
+    sc
 }
 
 pub struct RunOut {
@@ -377,6 +400,8 @@ pub struct RunOut {
     /// result and file of the second caller thread (duo)
     pub second: Option<(Result<Result<(), String>, String>, Option<Vec<u8>>)>,
     pub switches: u64,
+    /// whether the first and the second caller's call return Ok when each runs alone
+    pub alone: Option<(bool, bool)>,
 }
 
 pub const OUT_REL: &str = "out/image.hex";
@@ -384,9 +409,30 @@ pub const OUT_REL: &str = "out/image.hex";
 pub fn execute(sc: &Scenario, scratch: &Scratch, budget: u64) -> Result<RunOut, String> {
     scratch.clear();
     std::fs::create_dir_all(scratch.path("out")).map_err(|e| e.to_string())?;
+    // what each call does when it runs alone (only asked for two callers below a missing directory)
+    let alone = match &sc.duo {
+        Some(duo) if sc.missing_parent => {
+            let mut a = sc.clone();
+            a.duo = None;
+            let mut b = a.clone();
+            b.writer = duo.writer.clone();
+            b.len = duo.len;
+            b.fill = duo.fill.clone();
+            b.fill_seed = duo.fill_seed;
+            b.out_rel = duo.path.clone();
+            let ra = execute(&a, scratch, budget)?;
+            let rb = execute(&b, scratch, budget)?;
+            Some((matches!(ra.result, Ok(Ok(()))), matches!(rb.result, Ok(Ok(())))))
+        }
+        _ => None,
+    };
+    scratch.clear();
+    std::fs::create_dir_all(scratch.path("out")).map_err(|e| e.to_string())?;
     let out_path: PathBuf = scratch.path("").join(pb(&sc.out_rel));
     if let Some(d) = out_path.parent() {
-        std::fs::create_dir_all(d).map_err(|e| e.to_string())?;
+        if !sc.missing_parent {
+            std::fs::create_dir_all(d).map_err(|e| e.to_string())?;
+        }
     }
     if sc.pre_existing > 0 {
         // not HEX: a writer that does not truncate leaves an undecodable tail
@@ -458,7 +504,9 @@ pub fn execute(sc: &Scenario, scratch: &Scratch, budget: u64) -> Result<RunOut, 
     let p2 = out_path.clone();
     let limit = sc.fsize_limit;
     if let Some(duo) = &sc.duo {
-        return execute_duo(sc, duo, scratch, st, br, out_path);
+        let mut o = execute_duo(sc, duo, scratch, st, br, out_path)?;
+        o.alone = alone;
+        return Ok(o);
     }
     let run = run_simulated(st, move || {
         if let Some((pp, pbr)) = prior {
@@ -478,7 +526,7 @@ pub fn execute(sc: &Scenario, scratch: &Scratch, budget: u64) -> Result<RunOut, 
         restore_fsize(libc::RLIM_INFINITY);
     }
     let file = std::fs::read(&out_path).ok();
-    Ok(RunOut { result: run.result, file, state: run.state, second: None, switches: 0 })
+    Ok(RunOut { result: run.result, file, state: run.state, second: None, switches: 0, alone: None })
 }
 
 fn execute_duo(sc: &Scenario, duo: &Duo, scratch: &Scratch, st: SimState, br: BuildResult, out_path: PathBuf) -> Result<RunOut, String> {
@@ -533,7 +581,7 @@ fn execute_duo(sc: &Scenario, duo: &Duo, scratch: &Scratch, st: SimState, br: Bu
     let switches = sched.st.lock().unwrap_or_else(|e| e.into_inner()).switches;
     let second = results.pop().unwrap();
     let first = results.pop().unwrap();
-    Ok(RunOut { result: first, file: std::fs::read(&out_path).ok(), state, second: Some((second, std::fs::read(&out2).ok())), switches })
+    Ok(RunOut { result: first, file: std::fs::read(&out_path).ok(), state, second: Some((second, std::fs::read(&out2).ok())), switches, alone: None })
 }
 
 pub fn set_fsize(n: Option<u64>) -> libc::rlim_t {
@@ -571,11 +619,28 @@ fn len_class(len: usize) -> &'static str {
 
 fn faulted(sc: &Scenario) -> bool {
     // a directory at the output path is a fault of the environment: the call cannot succeed
-    !sc.rules.is_empty() || sc.write_cap > 0 || sc.fsize_limit.is_some() || sc.pre_kind == "dir"
+    !sc.rules.is_empty() || sc.write_cap > 0 || sc.fsize_limit.is_some() || sc.pre_kind == "dir" || sc.missing_parent
 }
 
 /// Judge one executed scenario. `fired` = a rule fired or the kernel limit bit.
 pub fn judge(sc: &Scenario, out: &RunOut, seed: u64) -> Option<Violation> {
+    if let (Some((a1, a2)), Some((r2, _))) = (out.alone, &out.second) {
+        // nothing is injected here: with another caller at work below the same missing directory
+        // each call ends as it ends alone
+        let (d1, d2) = (matches!(out.result, Ok(Ok(()))), matches!(r2, Ok(Ok(()))));
+        if sc.rules.is_empty() && sc.write_cap == 0 && sc.fsize_limit.is_none() && (a1, a2) != (d1, d2) {
+            return Some(Violation {
+                property: "C07".into(),
+                engine: "hexio".into(),
+                class: "differs-from-the-same-call-alone".into(),
+                signature: format!("class=differs-from-the-same-call-alone writer={} len={} duo missing-parent", sc.writer, len_class(sc.len)),
+                seed,
+                expected: "two callers writing different files below the same missing directory: each call returns what it returns when it runs alone".into(),
+                observed: json!({"alone_ok": [a1, a2], "together_ok": [d1, d2], "first": format!("{:?}", out.result), "second": format!("{:?}", r2), "trace_tail": trace_tail(&out.state.trace, 16)}),
+                scenario: serde_json::to_value(sc).unwrap(),
+            });
+        }
+    }
     if let (Some(duo), Some((r2, f2))) = (&sc.duo, &out.second) {
         // the second caller's call is judged like a call of its own
         let mut s2 = sc.clone();
@@ -584,7 +649,8 @@ pub fn judge(sc: &Scenario, out: &RunOut, seed: u64) -> Option<Violation> {
         s2.len = duo.len;
         s2.fill = duo.fill.clone();
         s2.fill_seed = duo.fill_seed;
-        let o2 = RunOut { result: r2.clone(), file: f2.clone(), state: SimState::new(""), second: None, switches: 0 };
+        s2.out_rel = duo.path.clone();
+        let o2 = RunOut { result: r2.clone(), file: f2.clone(), state: SimState::new(""), second: None, switches: 0, alone: None };
         if let Some(mut v) = judge(&s2, &o2, seed) {
             v.signature = format!("{} duo=second-caller", v.signature);
             v.scenario = serde_json::to_value(sc).unwrap();
@@ -756,7 +822,7 @@ pub fn worker(cfg: &WorkerCfg, emit: &mut dyn FnMut(Violation)) -> Stats {
                 }
             }
         } else if sc.config == "open" {
-            place_faults(&mut sc, &RunOut { result: Ok(Ok(())), file: None, state: SimState::new(""), second: None, switches: 0 }, &mut r);
+            place_faults(&mut sc, &RunOut { result: Ok(Ok(())), file: None, state: SimState::new(""), second: None, switches: 0, alone: None }, &mut r);
         }
         if faulted(&sc) && budget == u64::MAX {
             budget = 16 * (sc.len as u64 * 3 / sc.write_cap.max(1) as u64 + 64) + 64;
@@ -816,6 +882,8 @@ pub fn worker(cfg: &WorkerCfg, emit: &mut dyn FnMut(Violation)) -> Stats {
         stats.probe("pre_existing_longer_file", sc.pre_existing > 0 && sc.pre_kind.is_empty());
         stats.probe("output_path_is_a_directory", sc.pre_kind == "dir");
         stats.probe("output_path_is_a_symbolic_link", sc.pre_kind == "symlink" || sc.pre_kind == "dangling");
+        stats.probe("two_callers_below_the_same_missing_directory", sc.missing_parent && sc.duo.is_some() && out.switches > 0);
+        stats.probe("output_directory_missing", sc.missing_parent);
         stats.probe("output_name_that_is_not_utf8", has_raw(&sc.out_rel));
         stats.probe("fault_fired_on_an_output_whose_name_is_not_utf8", has_raw(&sc.out_rel) && any_fired);
         stats.probe("output_name_without_extension_or_with_inner_dots", sc.out_rel != OUT_REL && !has_raw(&sc.out_rel));
